@@ -10,7 +10,7 @@ from harness import cases as K
 from harness.binding import Binding, LABEL_FAMILIES, quiet
 from harness.verdict import Result
 
-FAMS = ("sparse", "str", "zero", "ident")
+FAMS = ("sparse", "str", "zero", "ident", "neg", "big")
 HG_INV = ["IncidenceRowsAndColumns", "AdjSymmetricZeroDiag", "AdjIsBBt", "AdjIsSumOfOrders", "DualIsBtB",
           "DegDIsFilteredDegree", "LapSymmetricZeroRowSum", "LapIsIncidenceForm", "TensorSymmetric"]
 TEMP_INV = ["AdjSymmetricZeroDiag", "TempAdjIsSnapshotAdj"]
@@ -228,22 +228,22 @@ def hg_inputs(tier, rng):
     e3 = all_edges(3)
     for mask in range(1 << len(e3)):
         es = [e3[i] for i in range(len(e3)) if mask >> i & 1]
-        fams = FAMS if tier == "thorough" else (FAMS[mask % 4],)
+        fams = FAMS if tier == "thorough" else (FAMS[mask % len(FAMS)],)
         for f in fams:
             out.append((3 if mask % 3 else 4, es, False, f, True if mask % 2 else None, False))
     # (ii) hypergraphs on 4 nodes (2^15 of them): thorough all of them, quick a seeded sample
     e4 = all_edges(4)
     if tier == "thorough":
         for mask in range(1 << len(e4)):
-            out.append((4, [e4[j] for j in range(len(e4)) if mask >> j & 1], False, FAMS[mask % 4], None, False))
+            out.append((4, [e4[j] for j in range(len(e4)) if mask >> j & 1], False, FAMS[mask % len(FAMS)], None, False))
     else:
         for i in range(60):
             mask = rng.getrandbits(len(e4)) & rng.getrandbits(len(e4)) if rng.random() < 0.6 else rng.getrandbits(len(e4))
-            out.append((4, [e4[j] for j in range(len(e4)) if mask >> j & 1], False, FAMS[i % 4], None, False))
+            out.append((4, [e4[j] for j in range(len(e4)) if mask >> j & 1], False, FAMS[i % len(FAMS)], None, False))
     # (iii) random, 2..6 nodes, sizes 1..5, weighted and unweighted
     for i in range(80 if tier == "quick" else 2500):
         n = rng.randint(2, 6)
-        out.append((n, random_edges(n, rng), i % 2 == 0, FAMS[i % 4], None, False))
+        out.append((n, random_edges(n, rng), i % 2 == 0, FAMS[i % len(FAMS)], None, False))
     # (iv) uniform hypergraphs on nodes 0..N-1 for the tensor (all nodes present)
     for i in range(40 if tier == "quick" else 600):
         z = rng.choice([1, 2, 2, 3, 3, 4])
@@ -263,7 +263,7 @@ def temp_inputs(tier, rng):
         for _ in range(rng.randint(1, 8)):
             z = min(n, rng.choice([1, 2, 2, 3, 4]))
             recs.append((tuple(sorted(rng.sample(range(1, n + 1), z))), rng.choice(times)))
-        out.append((n, sorted(set(recs)), i % 2 == 0, FAMS[i % 4]))
+        out.append((n, sorted(set(recs)), i % 2 == 0, FAMS[i % len(FAMS)]))
     return out
 
 
@@ -378,7 +378,7 @@ def reobs_inputs(tier, rng):
     out = []
     for i in range(24 if tier == "quick" else 900):
         n = rng.randint(3, 6)
-        out.append((n, random_edges(n, rng, m=rng.randint(1, 7), maxsize=4), i % 3 == 0, FAMS[i % 4]))
+        out.append((n, random_edges(n, rng, m=rng.randint(1, 7), maxsize=4), i % 3 == 0, FAMS[i % len(FAMS)]))
     return out
 
 
